@@ -345,6 +345,13 @@ func init() {
 			i.call(caller, token.NoPos, args[1], nil, nil)
 			return nil
 		},
+		"runtime.Callers": func(i *interp, caller *frame, fn *ssa.Function, args []value) value { return i.ctx.BV(64, 0) },
+		"runtime.Caller": func(i *interp, caller *frame, fn *ssa.Function, args []value) value {
+			return tuple{i.ctx.BV(64, 0), "", i.ctx.BV(64, 0), i.ctx.False()}
+		},
+		"github.com/gnolang/gno/tm2/pkg/errors.captureStacktrace": func(i *interp, caller *frame, fn *ssa.Function, args []value) value {
+			return []value(nil)
+		},
 		"runtime.SetFinalizer": noop, "runtime.KeepAlive": noop, "runtime.GC": noop, "runtime.Gosched": noop,
 		"runtime/debug.Stack":      func(i *interp, caller *frame, fn *ssa.Function, args []value) value { return []value{} },
 		"runtime/debug.PrintStack": noop,
